@@ -34,6 +34,12 @@ inductive Ans where
   | buckets (names : List Bytes)
 deriving Repr, DecidableEq
 
+/-- remove one key from a bucket (nothing happens if the bucket is absent) -/
+def delKey (s : Store) (b k : Bytes) : Store :=
+  match SMap.find s b with
+  | none => s
+  | some objs => SMap.insert s b (SMap.erase objs k)
+
 def step (s : Store) : Op → Store × Ans
   | .createBucket b =>
     if (SMap.find s b).isSome then (s, .err .BucketAlreadyExists) else (SMap.insert s b [], .ok)
@@ -57,11 +63,12 @@ def step (s : Store) : Op → Store × Ans
   | .delete b k =>
     match SMap.find s b with
     | none => (s, .err .NoSuchBucket)
-    | some objs => (SMap.insert s b (SMap.erase objs k), .ok)
+    | some _ => (delKey s b k, .ok)
   | .deleteMulti b ks =>
+    -- a multi-object delete is the deletion of each named key
     match SMap.find s b with
     | none => (s, .err .NoSuchBucket)
-    | some objs => (SMap.insert s b (ks.foldl SMap.erase objs), .ok)
+    | some _ => (ks.foldl (fun acc k => delKey acc b k) s, .ok)
   | .copy sb sk db dk =>
     match SMap.find s db with
     | none => (s, .err .NoSuchBucket)
